@@ -1206,8 +1206,49 @@ func (e *Engine) typeMethod(fr *frame, t types.Type, name string, args []value) 
 			return it.NumMethods()
 		}
 		return len(exportedMethods(e, t))
-	case "MethodByName":
-		panic(unsupported{"reflect.Type.MethodByName"})
+	case "MethodByName", "Method":
+		ms := exportedMethods(e, t)
+		mt := e.P.reflectPkg.Type("Method").Type()
+		idx := -1
+		if name == "MethodByName" {
+			want, ok := args[0].(string)
+			if !ok {
+				panic(unsupported{"MethodByName with symbolic name"})
+			}
+			for i, m := range ms {
+				if m.Obj().Name() == want {
+					idx = i
+				}
+			}
+			if idx < 0 {
+				return tuple{zero(mt), false}
+			}
+		} else {
+			idx = int(e.concreteInt(args[0], 0, 1024))
+			if idx < 0 || idx >= len(ms) {
+				reflectPanic("reflect: Method index out of range")
+			}
+		}
+		sel := ms[idx]
+		sig := sel.Type().(*types.Signature)
+		// Name, PkgPath, Type, Func, Index  (Func takes the receiver first)
+		var params []*types.Var
+		params = append(params, types.NewVar(0, nil, "", t))
+		for i := 0; i < sig.Params().Len(); i++ {
+			params = append(params, sig.Params().At(i))
+		}
+		fsig := types.NewSignatureType(nil, nil, nil, types.NewTuple(params...), sig.Results(), sig.Variadic())
+		var fv value = e.zeroRV()
+		if _, isI := t.Underlying().(*types.Interface); !isI {
+			if fn := e.P.Prog.MethodValue(sel); fn != nil {
+				fv = mkRV(fsig, fn)
+			}
+		}
+		m := structure{sel.Obj().Name(), "", e.mkType(fsig), fv, idx}
+		if name == "MethodByName" {
+			return tuple{m, true}
+		}
+		return m
 	case "ConvertibleTo":
 		u := args[0].(iface)
 		if u.t == nil {
